@@ -377,6 +377,23 @@ theorem propagateCov_eq_covSeq (F : Nat) (A B : Nat → M9 ℝ) (C0 : M9 ℝ) (i
 /-- the model of `/repo` uses the time-ordered product -/
 theorem code_order : codeLeft = false := rfl
 
+/-- an explicit `init_state` equal to the carried buffers (no `cov` / `Rij` keys) changes nothing -/
+theorem explicit_init_default (cfg : Cfg ℝ) (st : State ℝ) (fr : Nat → Frame ℝ) (F : Nat) :
+    call cfg st (some ⟨st.pos, st.rot, st.vel, none, none⟩) fr F = call cfg st none fr F := rfl
+
+/-- why small examples could not see the reversed product (D27): for one frame, and for two frames from a zero
+covariance, both orders of the cumulative product give the same covariance -/
+theorem cov_orders_agree_small (F : Nat) (A B : Nat → M9 ℝ) (C0 : M9 ℝ)
+    (h : F ≤ 1 ∨ (F = 2 ∧ toM C0 = 0)) :
+    toM (propagateCov true F A B C0) = toM (propagateCov false F A B C0) := by
+  rw [toM_propagateCov, toM_propagateCov]
+  rcases h with h | ⟨rfl, h0⟩
+  · have : F = 0 ∨ F = 1 := by omega
+    rcases this with rfl | rfl
+    · simp [qProd]
+    · simp [Finset.sum_range_succ, qProd, toM_mul, toM_one]
+  · simp [Finset.sum_range_succ, qProd, toM_mul, toM_one, bSeq, h0]
+
 /-! ## non-vacuity of the hypotheses -/
 
 example : (⟨0.6, 0, 0, 0.8⟩ : Quat ℝ).normSq = 1 := by lie_unfold; norm_num
